@@ -302,9 +302,8 @@ def nestedSetup (utilKeys : List Int) (arg : NestsArg (Nest α)) (aloneNeedsUtil
 
 /-- `cnl / logcnl / cnlmu / logcnlmu`: `check_validity`, `util[i]` as above; a key of `util`
 that is neither alone nor in a nest has an empty list of terms: `bioMultSum([])` raises
-`BiogemeError` — in the version without `mu` only: with `mu` (`aloneNeedsUtil`) the empty list
-of memberships passes the test "zero membership everywhere" and the key gets the term of an
-alone alternative. -/
+`BiogemeError` (in both versions: the test "zero membership everywhere" of the `mu` version
+requires a non-empty list of memberships). -/
 def cnlSetup (utilKeys : List Int) (arg : NestsArg (CNest α)) (aloneNeedsUtil : Bool) :
     Except String (List (CNest α) × List Int) := do
   let o ← resolve CNest.alts utilKeys arg
@@ -313,7 +312,7 @@ def cnlSetup (utilKeys : List Int) (arg : NestsArg (CNest α)) (aloneNeedsUtil :
   let al := aloneOf o.choiceSet lists
   if aloneNeedsUtil && !(al.all fun i => utilKeys.contains i) then throw "KeyError"
   if !((unionAlts lists).all fun i => utilKeys.contains i) then throw "KeyError"
-  if !aloneNeedsUtil && !(utilKeys.all fun i => (unionAlts lists ++ al).contains i) then
+  if !(utilKeys.all fun i => (unionAlts lists ++ al).contains i) then
     throw "BiogemeError"
   pure (o.nests, al)
 
